@@ -280,8 +280,11 @@ def _is_nonempty_test(ckd, var: str, positive: bool) -> bool:
     return False
 
 
-def _codes_same_obj(ck: Check, prog: Program, r: DispatcherRoles) -> None:
-    f = r.dispatch
+def _codes_same_obj(ck: Check, prog0: Program, r: DispatcherRoles) -> None:
+    # helpers extracted from the tail of dispatch (serialise + log + codes) are looked at as part of dispatch
+    from ..inline import inlined_program
+    prog = inlined_program(prog0, [r.dispatch.qualname], keep=[g.qualname for g in r.chain])
+    f = prog.func(r.dispatch.qualname)
     ty = types_of(prog)
     sc = FuncScope(f, ty)
     cfg = CFG(f, prog)
@@ -319,7 +322,7 @@ def _codes_same_obj(ck: Check, prog: Program, r: DispatcherRoles) -> None:
         if not ok:
             ck.finding('CODES-SAME-OBJ', f.qualname, 'codes from a different object', f.module.rel, n2.line,
                        'the error codes returned alongside the text do not describe the serialised document: ' + why)
-        _codes_shape(ck, prog, fn)
+        _codes_shape(ck, prog0, prog0.func(fn.qualname))
 
 
 def _can_reach(cfg: CFG, target: Node) -> Set[int]:
@@ -335,7 +338,9 @@ def _can_reach(cfg: CFG, target: Node) -> Set[int]:
 
 
 def _codes_shape(ck: Check, prog: Program, fn: FuncInfo) -> None:
-    """extract_error_codes: one entry per response object: its error code, or 0 for a success."""
+    """extract_error_codes: one entry per response object: its error code, or 0 for a success.  Decided on value flow
+    (reaching definitions + path guards), so conditional expressions, early returns and append-loops are all the same."""
+    from ..flow import Flow
     key = f'CODES-SHAPE|{fn.qualname}'
     if key in ck.extra.setdefault('_done', set()):
         return
@@ -343,27 +348,77 @@ def _codes_shape(ck: Check, prog: Program, fn: FuncInfo) -> None:
     param = fn.params[0].arg if fn.params else None
     problems: List[str] = []
     n_codes = 0
-    for st in walk_own(fn.node):
-        if not isinstance(st, ast.Return) or st.value is None:
+    cfg = CFG(fn, prog)
+    fl = Flow(cfg)
+
+    def err_test(c: ast.expr, pol: bool, subj: str) -> Optional[bool]:
+        """Does the guard (c, pol) establish that `subj` is an error response (True) / a success (False)?"""
+        k = classify_cond(prog, fn, c)
+        val: Optional[bool] = None
+        if k.kind == 'truthy' and k.subject in (f'{subj}.error', f'{subj}.is_error'):
+            val = not k.negated
+        elif k.kind == 'truthy' and k.subject == f'{subj}.is_success':
+            val = k.negated
+        elif k.kind in ('is-unset', 'is-none') and k.subject == f'{subj}.error':
+            val = k.negated
+        if val is None:
+            return None
+        return val if pol else not val
+
+    def is_code(e: ast.expr) -> Optional[str]:
+        d = dotted(e)
+        if d and d.endswith('.error.code'):
+            return d[:-len('.error.code')]
+        if isinstance(e, ast.Attribute) and e.attr == 'code' and isinstance(e.value, ast.Call) and \
+                isinstance(e.value.func, ast.Attribute) and e.value.func.attr == 'get_error':
+            return dotted(e.value.func.value)
+        return None
+
+    def check_leaf(leaf: ast.expr, guards, subj: Optional[str]) -> None:
+        nonlocal n_codes
+        n_codes += 1
+        s_ = is_code(leaf)
+        if s_ is not None:
+            if subj is not None and s_ != subj:
+                problems.append(f'code `{norm(leaf)}` is read from `{s_}`, not from the response `{subj}` the entry stands for')
+            elif not any(err_test(c, p, s_) is True for c, p in guards):
+                problems.append(f'`{norm(leaf)}` is read without establishing that `{s_}` carries an error')
+            return
+        if isinstance(leaf, ast.Constant) and leaf.value == 0 and not isinstance(leaf.value, bool):
+            if subj is None or not any(err_test(c, p, subj) is False for c, p in guards):
+                problems.append(f'0 is reported although nothing established that `{subj}` is a success')
+            return
+        problems.append(f'element `{norm(leaf)[:80]}` is neither "<resp>.error.code" nor 0')
+
+    from ..flow import _expand_ifexp
+    for n in cfg.stmt_nodes():
+        st = n.ast
+        if n.kind != 'stmt' or not isinstance(st, ast.Return) or st.value is None:
             continue
-        for v in _alternatives(st.value):
-            elts: List[ast.expr]
-            if isinstance(v, ast.Tuple):
-                elts = list(v.elts)
-            elif isinstance(v, ast.Call) and dotted(v.func) == 'tuple' and v.args and isinstance(v.args[0], (ast.GeneratorExp, ast.ListComp)):
-                comp = v.args[0]
-                gen = comp.generators[0]
-                if len(comp.generators) != 1 or gen.ifs or dotted(gen.iter) != param:
+        for sq in fl.seq(n, st.value):
+            if sq.kind == 'literal':
+                in_batch = False
+                for c_, pol_ in sq.guards:
+                    k_ = classify_cond(prog, fn, c_)
+                    if k_.kind == 'isinstance' and k_.subject == param and 'Batch' in k_.detail and pol_ != k_.negated:
+                        in_batch = True
+                for el in sq.elts:
+                    for a in _expand_ifexp(el):
+                        if in_batch and is_code(a.expr) is None:
+                            n_codes += 1
+                            problems.append(f'a batch response is summarised by the fixed tuple `({norm(a.expr)},)`: unless the batch itself '
+                                            f'carries an error there must be one code per element response')
+                            continue
+                        check_leaf(a.expr, sq.guards + a.guards, param)
+            elif sq.kind == 'iter':
+                tgt = dotted(sq.target) if sq.target is not None else None
+                if dotted(sq.iter) != param or not sq.total or sq.reordered or tgt is None:
                     problems.append(f'codes of a batch must be computed for every element of `{param}` in order, found '
-                                    f'`{norm(comp)[:80]}`')
-                elts = [comp.elt]
+                                    f'`{sq.text()[:100]}`')
+                for a in sq.elt:
+                    check_leaf(a.expr, a.guards + sq.filters, tgt)
             else:
-                problems.append(f'return value `{norm(v)[:60]}` is not a tuple of codes')
-                continue
-            for el in elts:
-                n_codes += 1
-                if not _code_or_zero(el, st, fn, prog):
-                    problems.append(f'element `{norm(el)[:80]}` is not "<resp>.error.code if <resp>.error else 0"')
+                problems.append(f'return value `{norm(sq.expr)[:60] if sq.expr is not None else "?"}` is not a tuple of codes')
     ok = not problems and n_codes >= 2
     ck.ob('CODES-SHAPE', f'{short(fn.qualname)}: one code per response object, 0 for a success', ok,
           sample={'code_expressions': n_codes})
@@ -374,74 +429,27 @@ def _codes_shape(ck: Check, prog: Program, fn: FuncInfo) -> None:
         raise AnalysisError(f'{fn.qualname}: code-extraction shape not recognised')
 
 
-def _alternatives(v: ast.expr) -> List[ast.expr]:
-    if isinstance(v, ast.IfExp):
-        return _alternatives(v.body) + _alternatives(v.orelse)
-    return [v]
-
-
-def _code_or_zero(el: ast.expr, st: ast.Return, fn: FuncInfo, prog: Program) -> bool:
-    def is_code(e: ast.expr) -> Optional[str]:
-        d = dotted(e)
-        if d and d.endswith('.error.code'):
-            return d[:-len('.error.code')]
-        if isinstance(e, ast.Attribute) and e.attr == 'code' and isinstance(e.value, ast.Call) and \
-                isinstance(e.value.func, ast.Attribute) and e.value.func.attr == 'get_error':
-            return dotted(e.value.func.value)
-        return None
-
-    def tests(e: ast.expr, subj: str) -> Optional[bool]:
-        ck_ = classify_cond(prog, fn, e)
-        if ck_.kind == 'truthy' and ck_.subject in (f'{subj}.error', f'{subj}.is_error'):
-            return not ck_.negated
-        if ck_.kind == 'truthy' and ck_.subject == f'{subj}.is_success':
-            return ck_.negated
-        if ck_.kind == 'is-unset' and ck_.subject == f'{subj}.error':
-            return ck_.negated
-        return None
-    if isinstance(el, ast.IfExp):
-        s = is_code(el.body)
-        if s is not None and tests(el.test, s) is True and isinstance(el.orelse, ast.Constant) and el.orelse.value == 0 \
-                and not isinstance(el.orelse.value, bool):
-            return True
-        s = is_code(el.orelse)
-        if s is not None and tests(el.test, s) is False and isinstance(el.body, ast.Constant) and el.body.value == 0:
-            return True
-        return False
-    s = is_code(el)
-    if s is None:
-        return False
-    # plain `<resp>.error.code` must sit under a conditional expression / branch that established the error
-    node: Optional[ast.AST] = st.value
-    for x in ast.walk(st.value):
-        if isinstance(x, ast.IfExp) and any(y is el for y in ast.walk(x.body)) and tests(x.test, s) is True:
-            return True
-    cfg = CFG(fn, prog)
-    for n in cfg.nodes_of(st):
-        for g in guard_edges(cfg, n):
-            t = tests(g.src.ast, s)
-            if t is not None and t == (g.label == 'T'):
-                return True
-    return False
-
-
 def _batch_to_json(ck: Check, prog: Program) -> None:
+    from ..flow import Flow
     f = prog.func(V20 + '.BatchResponse.to_json')
     ck.functions.add(f.qualname)
     cfg = CFG(f, prog)
+    fl = Flow(cfg)
     problems = []
     list_ret = 0
     for n in cfg.stmt_nodes():
         a = n.ast
-        if isinstance(a, ast.Return) and a.value is not None:
-            v = a.value
-            if isinstance(v, (ast.ListComp,)):
-                gen = v.generators[0]
-                elt_ok = isinstance(v.elt, ast.Call) and isinstance(v.elt.func, ast.Attribute) and v.elt.func.attr == 'to_json' \
-                    and dotted(v.elt.func.value) in [dotted(gen.target)]
-                if len(v.generators) != 1 or gen.ifs or not elt_ok:
-                    problems.append((n.line, f'batch wire form `{norm(v)[:80]}` is not the list of every element\'s to_json() in storage order'))
+        if n.kind == 'stmt' and isinstance(a, ast.Return) and a.value is not None:
+            for sq in fl.seq(n, a.value):
+                if sq.kind != 'iter':
+                    continue
                 list_ret += 1
+                tgt = dotted(sq.target) if sq.target is not None else None
+                elt_ok = bool(sq.elt) and all(
+                    isinstance(x.expr, ast.Call) and isinstance(x.expr.func, ast.Attribute) and x.expr.func.attr == 'to_json'
+                    and dotted(x.expr.func.value) == tgt and not x.expr.args for x in sq.elt)
+                if not sq.total or sq.reordered or not elt_ok or tgt is None:
+                    problems.append((n.line, f'batch wire form `{sq.text()[:80]}` is not the list of every element\'s to_json() in storage order'))
     ok = not problems and list_ret >= 1
     ck.ob('WIRE-SHAPE', 'BatchResponse.to_json: list of each element\'s wire form, in storage order', ok)
     for line, msg in problems:
